@@ -51,6 +51,7 @@ structure Inv (s : St) : Prop where
   comp : ∀ k, s.completed k ≤ s.started k
   compW : ∀ k, s.updated k = true → 1 ≤ s.completed k
   compF : ∀ t k m, s.pc t = .fetched k m → 1 ≤ s.completed k
+  busyC : ∀ t k m, s.pc t = .fetching k m → s.completed k < s.started k
 
 theorem inv_init : Inv St.init := by
   constructor <;> simp [St.init, Pc.mx, Pc.pre, Pc.inFetch, Pc.post, Pc.fetchBusy]
@@ -67,5 +68,228 @@ theorem Inv.uniq {s : St} (h : Inv s) {t t' : Tid} {k : Key} (hu : s.updated k =
   have a := h.hold t _ hm
   have b := h.hold t' _ hm'
   rw [a] at b; injection b with b; exact b.symm
+
+/-- Facts about a thread between re-check and first map update. -/
+theorem Inv.inFetch_facts {s : St} (h : Inv s) {t : Tid} {k : Key}
+    (hin : (s.pc t).inFetch = some k) :
+    s.updated k = false ∧ (∀ w, (s.pc w).inFetch = some k → w = t) := by
+  have hu : s.updated k = false := by
+    cases hh : s.updated k with
+    | false => rfl
+    | true => exact absurd hin (h.noFetch t k hh)
+  exact ⟨hu, fun w hw => h.uniq hu hin hw⟩
+
+macro "clause" : tactic =>
+  `(tactic| (intros; simp only [upd] at *; grind [Pc.mx, Pc.pre, Pc.inFetch, Pc.post, Pc.fetchBusy]))
+
+macro "easy_case" h:ident : tactic =>
+  `(tactic| (obtain ⟨h1, h2, h3, h4, h5, h6, h7, h8, h9, h10⟩ := $h; constructor <;> clause))
+
+/-! One lemma per program position (kept separate so that each proof stays small). -/
+
+theorem inv_call {s : St} (h : Inv s) (t : Tid) (k : Key) (hpc : s.pc t = .idle) :
+    Inv { s with pc := upd s.pc t (.check k) } := by easy_case h
+
+theorem inv_check_hit {s : St} (h : Inv s) (t : Tid) (k : Key) (hpc : s.pc t = .check k) :
+    Inv { s with pc := upd s.pc t .idle } := by easy_case h
+
+theorem inv_check_miss {s : St} (h : Inv s) (t : Tid) (k : Key) (hpc : s.pc t = .check k) :
+    Inv { s with pc := upd s.pc t (.getm k) } := by easy_case h
+
+theorem inv_getm_some {s : St} (h : Inv s) (t : Tid) (k : Key) (m : Mx) (hpc : s.pc t = .getm k)
+    (hr : s.running k = some m) : Inv { s with pc := upd s.pc t (.lock k m) } := by easy_case h
+
+theorem inv_getm_none {s : St} (h : Inv s) (t : Tid) (k : Key) (hpc : s.pc t = .getm k)
+    (hr : s.running k = none) :
+    Inv { s with running := upd s.running k (some s.next), next := s.next + 1,
+                 pc := upd s.pc t (.lock k s.next) } := by easy_case h
+
+theorem inv_lock {s : St} (h : Inv s) (t : Tid) (k : Key) (m : Mx) (hpc : s.pc t = .lock k m)
+    (hh : s.holder m = none) :
+    Inv { s with holder := upd s.holder m (some t), pc := upd s.pc t (.locked k m) } := by
+  easy_case h
+
+theorem inv_locked_hit {s : St} (h : Inv s) (t : Tid) (k : Key) (m : Mx)
+    (hpc : s.pc t = .locked k m) (hu : s.updated k = true) :
+    Inv { s with pc := upd s.pc t (.hit k m) } := by easy_case h
+
+theorem inv_locked_ret {s : St} (h : Inv s) (t : Tid) (k : Key) (m : Mx)
+    (hpc : s.pc t = .locked k m) (hu : s.updated k = true) :
+    Inv { s with pc := upd s.pc t (.ret2 k m) } := by easy_case h
+
+theorem inv_locked_miss {s : St} (h : Inv s) (t : Tid) (k : Key) (m : Mx)
+    (hpc : s.pc t = .locked k m) (hu : s.updated k = false) :
+    Inv { s with pc := upd s.pc t (.fetch k m) } := by easy_case h
+
+theorem inv_hit {s : St} (h : Inv s) (t : Tid) (k : Key) (m : Mx) (hpc : s.pc t = .hit k m) :
+    Inv { s with running := upd s.running k none, pc := upd s.pc t (.ret2 k m) } := by easy_case h
+
+theorem inv_ret2 {s : St} (h : Inv s) (t : Tid) (k : Key) (m : Mx) (hpc : s.pc t = .ret2 k m) :
+    Inv { s with holder := upd s.holder m none, pc := upd s.pc t .idle } := by easy_case h
+
+theorem inv_fetch {s : St} (h : Inv s) (t : Tid) (k : Key) (m : Mx) (hpc : s.pc t = .fetch k m) :
+    Inv { s with started := upd s.started k (s.started k + 1),
+                 pc := upd s.pc t (.fetching k m) } := by
+  have hin : (s.pc t).inFetch = some k := by rw [hpc]; rfl
+  obtain ⟨hu, hoth⟩ := h.inFetch_facts hin
+  obtain ⟨h1, h2, h3, h4, h5, h6, h7, h8, h9, h10⟩ := h
+  have hst : s.started k = 0 := by
+    have := h5 k
+    have h61 := h6 k
+    cases hc : s.started k with
+    | zero => rfl
+    | succ n =>
+      have : n = 0 := by omega
+      subst this
+      rcases h61 hc with hx | ⟨w, hw⟩
+      · rw [hu] at hx; cases hx
+      · have := hoth w (fetchBusy_inFetch hw)
+        subst this; rw [hpc] at hw; simp [Pc.fetchBusy] at hw
+  constructor
+  · clause
+  · clause
+  · clause
+  · clause
+  · clause
+  · intro k' hk'; simp only [upd] at *
+    by_cases e : k' = k
+    · subst e; right; exact ⟨t, by simp [Pc.fetchBusy]⟩
+    · simp only [e, if_false] at hk'
+      rcases h6 k' hk' with hx | ⟨w, hw⟩
+      · left; exact hx
+      · right; refine ⟨w, ?_⟩
+        by_cases ew : w = t
+        · subst ew; rw [hpc] at hw; simp [Pc.fetchBusy] at hw
+        · simp [ew, hw]
+  · clause
+  · clause
+  · clause
+  · clause
+
+theorem inv_fetching {s : St} (h : Inv s) (t : Tid) (k : Key) (m : Mx)
+    (hpc : s.pc t = .fetching k m) :
+    Inv { s with completed := upd s.completed k (s.completed k + 1),
+                 pc := upd s.pc t (.fetched k m) } := by
+  have hin : (s.pc t).inFetch = some k := by rw [hpc]; rfl
+  obtain ⟨hu, hoth⟩ := h.inFetch_facts hin
+  obtain ⟨h1, h2, h3, h4, h5, h6, h7, h8, h9, h10⟩ := h
+  have hb := h10 t k m hpc
+  constructor
+  · clause
+  · clause
+  · clause
+  · clause
+  · clause
+  · intro k' hk'; simp only [upd] at *
+    rcases h6 k' hk' with hx | ⟨w, hw⟩
+    · left; exact hx
+    · right
+      by_cases ew : w = t
+      · subst ew; rw [hpc] at hw; simp [Pc.fetchBusy] at hw; subst hw
+        exact ⟨w, by simp [Pc.fetchBusy]⟩
+      · exact ⟨w, by simp [ew, hw]⟩
+  · clause
+  · clause
+  · clause
+  · intro w k' m' hw; simp only [upd] at *
+    by_cases ew : w = t
+    · simp [ew] at hw
+    · simp only [ew, if_false] at hw
+      have := h10 w k' m' hw
+      by_cases e : k' = k
+      · subst e; exact absurd (hoth w (by rw [hw]; rfl)) ew
+      · simp [e]; exact this
+
+theorem inv_fetched {s : St} (h : Inv s) (t : Tid) (k : Key) (m : Mx)
+    (hpc : s.pc t = .fetched k m) :
+    Inv { s with updated := upd s.updated k true, pc := upd s.pc t (.between k m) } := by
+  have hin : (s.pc t).inFetch = some k := by rw [hpc]; rfl
+  obtain ⟨hu, hoth⟩ := h.inFetch_facts hin
+  obtain ⟨h1, h2, h3, h4, h5, h6, h7, h8, h9, h10⟩ := h
+  have hc := h9 t k m hpc
+  constructor
+  · clause
+  · clause
+  · intro w k' hk'; simp only [upd] at *
+    by_cases ew : w = t
+    · simp [ew, Pc.inFetch]
+    · simp only [ew, if_false]
+      by_cases e : k' = k
+      · subst e; intro hw; exact ew (hoth w hw)
+      · simp only [e, if_false] at hk'; exact h3 w k' hk'
+  · clause
+  · clause
+  · intro k' hk'; simp only [upd] at *
+    by_cases e : k' = k
+    · left; simp [e]
+    · rcases h6 k' hk' with hx | ⟨w, hw⟩
+      · left; simp [e, hx]
+      · right
+        by_cases ew : w = t
+        · subst ew; rw [hpc] at hw; simp [Pc.fetchBusy] at hw; exact absurd hw.symm e
+        · exact ⟨w, by simp [ew, hw]⟩
+  · clause
+  · clause
+  · clause
+  · clause
+
+theorem inv_between {s : St} (h : Inv s) (t : Tid) (k : Key) (m : Mx)
+    (hpc : s.pc t = .between k m) :
+    Inv { s with running := upd s.running k none, pc := upd s.pc t (.done k m) } := by
+  easy_case h
+
+theorem inv_done {s : St} (h : Inv s) (t : Tid) (k : Key) (m : Mx) (hpc : s.pc t = .done k m) :
+    Inv { s with holder := upd s.holder m none, pc := upd s.pc t .idle } := by easy_case h
+
+/-- `Inv` is inductive for every variant that inserts into `updated` first. -/
+theorem inv_step (v : Variant) (hv : v.insertFirst = true) (s : St) (l : Label) (s' : St)
+    (h : Inv s) (hs : step v s l = some s') : Inv s' := by
+  obtain ⟨t, a⟩ := l
+  cases a with
+  | call k =>
+    simp only [step] at hs
+    split at hs
+    · rename_i hpc; injection hs with hs; subst hs; exact inv_call h t k hpc
+    · simp at hs
+  | step =>
+    simp only [step, hv] at hs
+    split at hs
+    · simp at hs
+    · rename_i k hpc
+      split at hs <;> (injection hs with hs; subst hs)
+      · exact inv_check_hit h t k hpc
+      · exact inv_check_miss h t k hpc
+    · rename_i k hpc
+      split at hs <;> (injection hs with hs; subst hs)
+      · rename_i m hr; exact inv_getm_some h t k m hpc hr
+      · rename_i hr; exact inv_getm_none h t k hpc hr
+    · rename_i k m hpc
+      split at hs
+      · rename_i hh; injection hs with hs; subst hs; exact inv_lock h t k m hpc hh
+      · simp at hs
+    · rename_i k m hpc
+      split at hs
+      · rename_i hu
+        split at hs <;> (injection hs with hs; subst hs)
+        · exact inv_locked_hit h t k m hpc hu
+        · exact inv_locked_ret h t k m hpc hu
+      · rename_i hu; injection hs with hs; subst hs
+        exact inv_locked_miss h t k m hpc (by simpa using hu)
+    · rename_i k m hpc; injection hs with hs; subst hs; exact inv_hit h t k m hpc
+    · rename_i k m hpc; injection hs with hs; subst hs; exact inv_ret2 h t k m hpc
+    · rename_i k m hpc; injection hs with hs; subst hs; exact inv_fetch h t k m hpc
+    · rename_i k m hpc; injection hs with hs; subst hs; exact inv_fetching h t k m hpc
+    · rename_i k m hpc
+      simp only [if_true] at hs
+      injection hs with hs; subst hs; exact inv_fetched h t k m hpc
+    · rename_i k m hpc
+      simp only [if_true] at hs
+      injection hs with hs; subst hs; exact inv_between h t k m hpc
+    · rename_i k m hpc; injection hs with hs; subst hs; exact inv_done h t k m hpc
+
+/-- The invariant holds in every reachable state (all interleavings, any number of threads). -/
+theorem inv_reach (v : Variant) (hv : v.insertFirst = true) :
+    ∀ s, Reach (sys v) s → Inv s :=
+  inv_of_inductive (S := sys v) Inv inv_init (fun s l s' h hs => inv_step v hv s l s' h hs)
 
 end RoutinatorModel.Once
